@@ -2,7 +2,7 @@ SPECIFICATION Spec
 CONSTANTS
   Names <- NamesQ
   LitPool <- LitsFull
-  ActKinds = {"Define", "DefineFromVar", "Assign", "AssignFromVar", "IndexAssign", "OpAssign", "FieldAssign", "TupleElemAssign", "Eval", "Destructure", "DestructureTooMany", "DestructureVar"}
+  ActKinds = {"Define", "DefineFromVar", "Assign", "AssignFromVar", "IndexAssign", "OpAssign", "FieldAssign", "TupleElemAssign", "Eval", "Destructure", "DestructureTooMany", "DestructureVar", "FailingCall"}
   MaxScalar = 7
 VIEW View
 INVARIANT TypeOK
